@@ -1310,6 +1310,13 @@ def generate():
     # ---- cp437.rs
     files["Cp437Gen.v"] = gen_cp437(read("src/cp437.rs"))
 
+    # ---- reference CP437 table from CPython's codec (Unicode consortium mapping), independent of the crate
+    ref = [ord(bytes([b]).decode("cp437")) for b in range(256)]
+    files["Cp437Ref.v"] = ("(* GENERATED by tools/rs2v.py from CPython's cp437 codec — do not edit. *)\n"
+                           "From ZipV Require Import Base.Bytes.\nOpen Scope N_scope.\n"
+                           "Definition CP437_REF : list N :=\n [%s].\n" %
+                           ";\n  ".join("; ".join(str(v) for v in ref[i:i + 8]) for i in range(0, 256, 8)))
+
     # ---- write.rs: reserved extra-field ids, CRC32_OFFSET
     wr = read("src/write.rs")
     s = PRELUDE % "src/write.rs" + imp
